@@ -60,7 +60,8 @@ def renyi_entropy(dist, order, rvs=None, rv_mode=None):
     pmf = dist.pmf
 
     if order == 0:
-        H_a = np.log2(pmf.size)
+        # Zero-probability outcomes (stored explicitly) are not in the support.
+        H_a = np.log2(np.count_nonzero(pmf))
     elif order == 1:
         H_a = entropy(dist)
     elif order == np.inf:
@@ -169,7 +170,8 @@ def sibson_mutual_information(dist, order, rvs=None, rv_mode=None):
     pmf = dist.pmf
 
     if order == 0:
-        H_a = np.log2(pmf.size)
+        # Zero-probability outcomes (stored explicitly) are not in the support.
+        H_a = np.log2(np.count_nonzero(pmf))
     elif order == 1:
         H_a = entropy(dist)
     elif order == np.inf:
